@@ -549,7 +549,7 @@ impl Monitor for C05 {
          codomains = node count) and its source and target types compared with the promised ones; (b) raw data handed to FiniteFunction::new (max = target-1/target/target+1), IndexedCoproduct::new / \
          from_semifinite (sum +-1, codomain +-1), Operations::new (counts +-1), Hypergraph::new (four conditions, each off by one), OpenHypergraph::new (two more), strict and lax spider: accepted iff \
          the documented conditions hold. The cross-cutting counters wf:* in every other check's evidence come from the same walker. non-trivial = returned diagram with >=1 hyperedge or a constructor \
-         decision; distinct = hash of (kind, result) / raw data. Also: every accepted constructor value is compared field by field with the raw data handed in (non-empty, different legs; zero nodes allowed), and a partial operation returning None on well-typed arguments is a violation."
+         decision; distinct = hash of (kind, result) / raw data. Also: every accepted constructor value is compared field by field with the raw data handed in (non-empty, different legs; zero nodes allowed), and a partial operation returning None on well-typed arguments is a violation. Round 8: compose is also called with an arbitrary second operand and with the matching operand relabelled at one boundary position (same arity, different type): whatever it returns must be well-formed with source from the left and target from the right."
     }
     fn corpus_len(&self) -> u64 {
         0
